@@ -7,7 +7,7 @@
 (* or not.  One case = one kill point: a first process (killed or not) and *)
 (* a fresh process restarted on the same directory and host.               *)
 (* Rows: {"e":"case","id","final0","latched0","damaged"} {"e":"spawn"}      *)
-(*  {"e":"end"}                                                             *)
+(*  {"e":"end"}  {"e":"host","op":"unlatch"} (the host drops its latch)     *)
 (*  {"e":"fs","op":create_tmp|write_tmp|close_tmp|rename|create_final|     *)
 (*     open_final|read_final|unlink_final, "g"}  calls on <keys>/<guid>.*   *)
 (*  {"e":"net","op":status|acquire|attest|signed,"g","latches","file"}     *)
@@ -22,6 +22,8 @@
 (*  equal to the issued key exists when the host receives the attestation), *)
 (*  TmpThenRename (a final name is only ever                                *)
 (*  produced by renaming a written and closed temporary file),         *)
+(*  UsesLocalLatchedKey (no key request while the key the host has latched   *)
+(*  and named to this process lies complete in the store),                  *)
 (*  LatchedIsRecoverable, NoCorruptFinalName (C08_*On of KeyKeeper.tla on   *)
 (*  the real directory when a process ends; LatchedIsRecoverable also after *)
 (*  every system call, on the final names as the calls leave them and the   *)
@@ -38,8 +40,9 @@ Rec == ndJsonDeserialize(IOEnv.TRACE)
 VARIABLES l, st, viol, caseid, nev,
           ff,    \* the final names as the system calls leave them (rename / unlink / create), from the directory at the start
           lat,   \* the key the host regards as attested (the host's own record of each attestation request it served)
-          dmg    \* keys whose file was damaged from outside before the case started
-tvars == <<vars, l, st, viol, caseid, nev, ff, lat, dmg>>
+          dmg,   \* keys whose file was damaged from outside before the case started
+          told   \* this process has sent a status request since the host's latch last changed (it has been told)
+tvars == <<vars, l, st, viol, caseid, nev, ff, lat, dmg, told>>
 
 SetOf(seq) == {seq[k] : k \in 1..Len(seq)}
 Fresh == [g \in Guids |-> "none"]
@@ -78,20 +81,22 @@ ExitBad(r) ==
 
 TInit ==
   /\ host = 0 /\ fs = 0 /\ pc = "-" /\ loc = 0 /\ mem = 0 /\ policy = 0 /\ act = 0 /\ gh = 0
-  /\ l = 1 /\ st = Fresh /\ viol = {} /\ caseid = 0 /\ nev = 0 /\ ff = Fresh /\ lat = "none" /\ dmg = {}
+  /\ l = 1 /\ st = Fresh /\ viol = {} /\ caseid = 0 /\ nev = 0 /\ ff = Fresh /\ lat = "none" /\ dmg = {} /\ told = FALSE
 
 Row == Rec[l]
 Same == UNCHANGED vars
 TCase  == /\ Row.e = "case" /\ caseid' = Row.id /\ viol' = {} /\ st' = Fresh /\ nev' = 0
-          /\ ff' = [g \in Guids |-> Row.final0[g]] /\ lat' = Row.latched0 /\ dmg' = SetOf(Row.damaged) /\ Same
-TSpawn == /\ Row.e = "spawn" /\ st' = Fresh /\ UNCHANGED <<viol, caseid, nev, ff, lat, dmg>> /\ Same
+          /\ ff' = [g \in Guids |-> Row.final0[g]] /\ lat' = Row.latched0 /\ dmg' = SetOf(Row.damaged) /\ told' = FALSE /\ Same
+TSpawn == /\ Row.e = "spawn" /\ st' = Fresh /\ told' = FALSE /\ UNCHANGED <<viol, caseid, nev, ff, lat, dmg>> /\ Same
+\* the host drops its latch on its own (rotation) while the process runs
+THost  == /\ Row.e = "host" /\ lat' = "none" /\ told' = FALSE /\ UNCHANGED <<st, viol, caseid, nev, ff, dmg>> /\ Same
 TFs    == /\ Row.e = "fs"
           /\ IF Known(Row.g)
              THEN /\ st' = FsStep(Row.op, Row.g) /\ ff' = FfStep(Row.op, Row.g)
                   /\ dmg' = IF Row.op = "rename" THEN dmg \ {Row.g} ELSE dmg
                   /\ viol' = viol \cup FsBad(Row.op, Row.g) \cup NowBad(ff', lat, dmg')
              ELSE UNCHANGED <<st, viol, ff, dmg>>
-          /\ nev' = nev + 1 /\ UNCHANGED <<caseid, lat>> /\ Same
+          /\ nev' = nev + 1 /\ UNCHANGED <<caseid, lat, told>> /\ Same
 TNet   == /\ Row.e = "net"
           /\ lat' = IF Row.op = "attest" /\ Row.latches THEN Row.g ELSE lat
           /\ viol' = viol \cup (IF Row.op = "attest" /\ ~(Known(Row.g) /\ st[Row.g] = "readback")
@@ -100,13 +105,20 @@ TNet   == /\ Row.e = "net"
                            \cup (IF Row.op = "attest" /\ Row.file \in {"none", "corrupt"}
                                 THEN {"AttestedKeyOnDisk"} ELSE {})
                            \cup NowBad(ff, lat', dmg)
+                           \* a key the host has latched and named to this process, complete in its store, is used:
+                           \* no new key is requested (at a restart and while running alike)
+                           \cup (IF Row.op = "acquire" /\ told /\ lat # "none" /\ lat \notin dmg /\ Known(lat) /\ ff[lat] = "key"
+                                THEN {"UsesLocalLatchedKey"} ELSE {})
+          /\ told' = CASE Row.op = "attest" /\ Row.latches -> FALSE
+                        [] Row.op = "status" -> TRUE
+                        [] OTHER -> told
           /\ nev' = nev + 1 /\ UNCHANGED <<st, caseid, ff, dmg>> /\ Same
-TExit  == /\ Row.e = "exit" /\ viol' = viol \cup ExitBad(Row) /\ UNCHANGED <<st, caseid, nev, ff, lat, dmg>> /\ Same
+TExit  == /\ Row.e = "exit" /\ viol' = viol \cup ExitBad(Row) /\ UNCHANGED <<st, caseid, nev, ff, lat, dmg, told>> /\ Same
 TEnd   == /\ Row.e = "end"
           /\ PrintT(<<"VERDICT", ToJson([case |-> caseid, viol |-> viol, events |-> nev])>>)
-          /\ UNCHANGED <<st, viol, caseid, nev, ff, lat, dmg>> /\ Same
+          /\ UNCHANGED <<st, viol, caseid, nev, ff, lat, dmg, told>> /\ Same
 
-TNext == l <= Len(Rec) /\ l' = l + 1 /\ (TCase \/ TSpawn \/ TFs \/ TNet \/ TExit \/ TEnd)
+TNext == l <= Len(Rec) /\ l' = l + 1 /\ (TCase \/ TSpawn \/ THost \/ TFs \/ TNet \/ TExit \/ TEnd)
 TSpec == TInit /\ [][TNext]_tvars
 
 Accepted == IF TLCGet("stats").diameter - 1 = Len(Rec) THEN TRUE
